@@ -16,7 +16,7 @@ the Python `load` runs them, with its `except` clauses.
     DSF.load                           DSFFile(fileobj); tags as above (`_DSFID3`); info = DSFInfo(dsf_file.fmt_chunk)
     FLAC.load, ASF.load, MP4.load      one model each (Model/Container/FlacLoad.lean, Asf.lean, Mp4LoadM.lean)
     AAC.load, AC3.load                 info only (no tags)
-    SMF                                no model
+    SMF.load                           try: info = SMFInfo(fileobj) except IOError: raise SMFError; no tags
 
 `ID3NoHeaderError`, `ID3UnsupportedVersionError`, `APENoHeaderError` are MutagenErrors; the first and the last are
 caught by the `load`s (tags = None), the second is not.
@@ -48,6 +48,7 @@ import MutagenModel.Model.Info.Tak
 import MutagenModel.Model.Info.TrueAudio
 import MutagenModel.Model.Info.WavPack
 import MutagenModel.Model.Info.Wave
+import MutagenModel.Model.Info.Smf
 import MutagenModel.Model.Utf8
 import MutagenModel.Model.Detect
 set_option linter.unusedVariables false
@@ -256,8 +257,10 @@ def loadDsf (f : Bytes) : Except PyErr (Bool × Info.Dsf.Info) :=
 
 open Mutagen.Generated Mutagen.Detect
 
-/-- the outcome of `Kind(fileobj)` for the classes among `File`'s options; SMF has no model: `notImplemented`
-stands for "not modelled" -/
+/-- `SMF(fileobj)`: `SMFInfo(fileobj)` (Model/Info/Smf.lean); the class has no tags -/
+def loadSmf (f : Bytes) : Except PyErr Info.Smf.Info := Info.Smf.parse f
+
+/-- the outcome of `Kind(fileobj)` for the classes among `File`'s options -/
 def loadKind (k : Kind) (f : Bytes) : Except PyErr Unit :=
   match k with
   | .MP3 => (loadMp3 f).map fun _ => ()
@@ -279,7 +282,7 @@ def loadKind (k : Kind) (f : Bytes) : Except PyErr Unit :=
   | .OggOpus => (loadOggOpus f).map fun _ => ()
   | .AAC => (loadAac f).map fun _ => ()
   | .AC3 => (loadAc3 f).map fun _ => ()
-  | .SMF => .error .notImplemented
+  | .SMF => (loadSmf f).map fun _ => ()
   | .TAK => (loadTak f).map fun _ => ()
   | .DSF => (loadDsf f).map fun _ => ()
   | .DSDIFF => (loadDsdiff f).map fun _ => ()
